@@ -3,11 +3,16 @@
 From V Require Import Crash.Storage Crash.StorageProofs Crash.Protocol.
 From Coq Require Import ZifyN ZifyNat ZifyBool Lia.
 
+(* the tree's commit log between operations: nothing buffered, nothing pending but truncations (the
+   rewind of ResetSize since fix 6a85281, the cut of a partial last entry at open), whole entries *)
+Definition is_pt (w : pw) : Prop := match w with PT _ => True | PW _ _ => False end.
+Definition CL (c : file) : Prop :=
+  buf c = [] /\ Forall is_pt (pending c) /\ offs_ge (bufoff c) (pending c) /\
+  bufoff c <= len (durable c) /\ os_view c = take (bufoff c) (durable c) /\ bufoff c mod 12 = 0.
+
 Definition AInv (thld : N) (a : aht) : Prop :=
-  wf (a_d a) /\ wf (a_c a) /\ a_latest a + a_cnt a = a_size a /\ a_cnt a < thld /\
-  32 * a_size a <= f_offset (a_d a) /\ pending (a_c a) = [] /\ buf (a_c a) = [] /\
-  12 * a_latest a <= bufoff (a_c a) /\ bufoff (a_c a) = len (durable (a_c a)) /\
-  len (durable (a_c a)) mod 12 = 0.
+  wf (a_d a) /\ CL (a_c a) /\ a_latest a + a_cnt a = a_size a /\ a_cnt a < thld /\
+  32 * a_size a <= f_offset (a_d a) /\ 12 * a_latest a <= bufoff (a_c a).
 
 Lemma len_aht_entries from cnt : len (aht_entries from cnt) = 12 * N.of_nat cnt.
 Proof.
@@ -25,74 +30,137 @@ Proof.
   destruct (bufoff f <=? o); eauto.
 Qed.
 
-(* the tree's commit log after a rewind to o (nothing pending, nothing buffered) and an append + fsync *)
+Lemma CL_wf c : CL c -> wf c.
+Proof. intros (_ & _ & _ & Hl & Ho & _). unfold wf. rewrite Ho, len_take. lia. Qed.
+
+Lemma CL_open img : len img mod 12 = 0 -> CL (f_open img).
+Proof.
+  intros Hm. unfold CL, f_open, os_view. cbn [buf pending bufoff durable apply_writes fold_left].
+  repeat split; auto; try constructor; try lia. symmetry. apply take_all.
+Qed.
+
+(* truncations at or above b leave a prefix of at least b bytes *)
+Lemma apply_pts d ws b : Forall is_pt ws -> offs_ge b ws -> b <= len d ->
+  exists m, b <= m /\ apply_writes d ws = take m d.
+Proof.
+  revert d; induction ws as [|w ws IH]; intros d Hp Hg Hb.
+  - exists (len d). split; [exact Hb|]. symmetry. apply take_all.
+  - inversion Hp as [|? ? Hw Hp']; subst. inversion Hg as [|? ? Hw' Hg']; subst.
+    destruct w as [o x|m1]; [contradiction|]. cbn [pw_off] in Hw'.
+    cbn [apply_writes fold_left apply1]. fold (apply_writes (take m1 d) ws).
+    destruct (IH (take m1 d) Hp' Hg') as (m' & Hm' & E); [rewrite len_take; lia|].
+    rewrite E. destruct (N.le_gt_cases m' m1).
+    + exists m'. split; [exact Hm'|]. apply take_take. exact H.
+    + exists m1. split; [exact Hw'|]. apply take_ge. rewrite len_take. lia.
+Qed.
+
+Lemma is_pt_firstn k ws : Forall is_pt ws -> Forall is_pt (firstn k ws).
+Proof.
+  revert k; induction ws as [|w ws IH]; intros [|k] Hp; cbn [firstn]; auto.
+  inversion Hp; subst. constructor; auto.
+Qed.
+
+Lemma is_pt_sub a b : sub_trunc a b -> Forall is_pt a -> Forall is_pt b.
+Proof. induction 1; intros Hp; auto; inversion Hp; subst; [contradiction|constructor; [exact Logic.I|auto]]. Qed.
+
+Lemma prefix_torn_pts ws k t : Forall is_pt ws -> prefix_torn ws k t = firstn k ws.
+Proof.
+  intros Hp. unfold prefix_torn.
+  destruct (nth_error ws k) as [[o d|n]|] eqn:E; try apply app_nil_r.
+  exfalso. rewrite Forall_forall in Hp. exact (Hp (PW o d) (nth_error_In _ _ E)).
+Qed.
+
+(* a crash image of the tree's commit log: the durable content cut at or after the rewound offset *)
+Lemma CL_image c img : CL c -> crash_image c img -> exists m, bufoff c <= m /\ img = take m (durable c).
+Proof.
+  intros (Hb & Hp & Hg & Hl & Ho & Hm) (k & t & ws & Hs & ->).
+  rewrite prefix_torn_pts in Hs by exact Hp.
+  apply apply_pts; auto.
+  - eapply is_pt_sub; [exact Hs|]. apply is_pt_firstn. exact Hp.
+  - eapply offs_ge_sub; [exact Hs|]. apply offs_ge_firstn. exact Hg.
+Qed.
+
+(* rewind of the tree's commit log to o *)
+Lemma CL_setoffset c o c1 : CL c -> o <= bufoff c -> o mod 12 = 0 -> f_setoffset c o = Some c1 ->
+  CL c1 /\ bufoff c1 = o /\ durable c1 = durable c /\ (o = bufoff c -> pending c1 = pending c).
+Proof.
+  intros HC Ho Hm Es. pose proof (CL_wf _ HC) as Wc.
+  destruct HC as (Hb & Hp & Hg & Hl & Hv & Hm0).
+  destruct (f_setoffset_spec _ _ _ _ Wc Es) as (S1 & S2 & S3 & S4 & S5 & S6 & S7 & S8 & S9 & S10 & S11).
+  specialize (S10 Hb).
+  destruct (N.eq_dec o (bufoff c)) as [E|NE].
+  - specialize (S5 ltac:(lia)). specialize (S8 ltac:(lia)).
+    split; [|split; [lia|split; [exact S4|intros _; exact S5]]].
+    unfold CL. unfold os_view in *. rewrite S10, S5, S8, S4. repeat split; auto.
+  - specialize (S6 ltac:(lia)). specialize (S9 ltac:(lia)). cbv iota in S6.
+    split; [|split; [exact S9|split; [exact S4|intros; lia]]].
+    unfold CL. rewrite S10, S6, S9, S4. repeat split; auto; try lia.
+    + apply Forall_app. split; [exact Hp|]. constructor; [exact Logic.I|constructor].
+    + apply offs_ge_app; [eapply offs_ge_weaken; [|exact Hg]; lia|]. constructor; [cbn; lia|constructor].
+    + unfold os_view. rewrite S6, S4, apply_writes_app. fold (os_view c). rewrite Hv.
+      cbn [apply_writes fold_left apply1]. apply take_take. lia.
+Qed.
+
+(* ... followed by an append and an fsync *)
 Lemma clog_rewrite c o ents c1 :
-  wf c -> pending c = [] -> buf c = [] -> bufoff c = len (durable c) -> o <= bufoff c ->
+  CL c -> o <= bufoff c -> o mod 12 = 0 -> len ents mod 12 = 0 ->
   f_setoffset c o = Some c1 ->
   let c2 := f_sync (f_append c1 ents) in
-  wf c2 /\ pending c2 = [] /\ buf c2 = [] /\ bufoff c2 = o + len ents /\
-  durable c2 = take o (durable c) ++ ents.
+  CL c2 /\ pending c2 = [] /\ bufoff c2 = o + len ents /\
+  durable c2 = take o (durable c) ++ ents /\ len (durable c2) = o + len ents.
 Proof.
-  intros Wc Hp Hb Hl Ho Es. cbv zeta.
-  destruct (f_setoffset_spec _ _ _ _ Wc Es) as (S1 & S2 & S3 & S4 & S5 & S6 & S7 & S8 & S9 & S10 & _).
-  specialize (S10 Hb).
+  intros HC Ho Hm He Es. cbv zeta.
+  destruct (CL_setoffset _ _ _ HC Ho Hm Es) as (HC1 & B1 & D1' & _).
+  pose proof (CL_wf _ HC1) as W1. destruct HC1 as (Hb1 & Hp1 & Hg1 & Hl1 & Hv1 & Hm1).
   assert (W2: wf (f_append c1 ents)) by (apply wf_append; auto).
   destruct (f_sync_spec _ W2) as (D1 & D2 & D3 & D4).
-  assert (Lv: o <= len (lview c)).
-  { rewrite len_lview by auto. rewrite os_view_nopending by auto. lia. }
-  specialize (S7 Lv).
-  assert (Lvc: lview c = durable c).
-  { unfold lview. rewrite Hb, wr_nil. apply os_view_nopending; auto. }
   assert (Lv1: lview c1 = take o (durable c)).
-  { assert (Ll1: len (lview c1) = o).
-    { rewrite len_lview by auto. unfold f_offset in *. rewrite S10, len_nil in *.
-      destruct (N.le_gt_cases (bufoff c) o) as [Hle|Hgt].
-      - rewrite (S8 Hle) in *. unfold os_view. rewrite (S5 Hle), Hp. cbn [apply_writes fold_left]. rewrite S4. lia.
-      - rewrite (S9 Hgt) in *. unfold os_view. rewrite (S6 Hgt), Hp, S4. cbn [app apply_writes fold_left apply1].
-        rewrite len_take. lia. }
-    rewrite <- (take_ge o (lview c1)) by lia. rewrite S7, Lvc. reflexivity. }
-  split; [apply wf_sync; auto|]. split; [exact D2|]. split; [exact D3|]. split.
-  - rewrite D4. unfold f_offset. cbn [f_append bufoff buf]. rewrite len_app. unfold f_offset in S3. lia.
-  - rewrite D1. rewrite lview_append by auto. rewrite Lv1, S3. unfold wr.
+  { unfold lview. rewrite Hb1, wr_nil, Hv1, B1, D1'. reflexivity. }
+  assert (O1: f_offset c1 = o) by (unfold f_offset; rewrite Hb1, len_nil; lia).
+  assert (Dd: durable (f_sync (f_append c1 ents)) = take o (durable c) ++ ents).
+  { rewrite D1. rewrite lview_append by auto. rewrite Lv1, O1. unfold wr.
+    destruct HC as (_ & _ & _ & Hl & _).
     rewrite take_ge by (rewrite len_take; lia).
-    rewrite drop_ge by (rewrite len_take; lia). rewrite app_nil_r. reflexivity.
+    rewrite drop_ge by (rewrite len_take; lia). rewrite app_nil_r. reflexivity. }
+  assert (Ld: len (take o (durable c) ++ ents) = o + len ents).
+  { destruct HC as (_ & _ & _ & Hl & _). rewrite len_app, len_take. lia. }
+  assert (Bo: bufoff (f_sync (f_append c1 ents)) = o + len ents).
+  { rewrite D4. unfold f_offset. cbn [f_append bufoff buf]. rewrite len_app, Hb1, len_nil. lia. }
+  split; [|split; [exact D2|split; [exact Bo|split; [exact Dd|rewrite Dd; exact Ld]]]].
+  unfold CL. rewrite D2, D3, Bo, Dd, Ld. unfold os_view. rewrite D2, Dd. cbn [apply_writes fold_left].
+  repeat split; auto; try constructor; try lia.
+  symmetry. apply take_ge. lia.
 Qed.
 
 (* sync with K = latest + cnt pending entries accounted for *)
 Lemma aht_sync_ok a K :
-  wf (a_d a) -> wf (a_c a) -> a_latest a + a_cnt a = K -> 32 * K <= f_offset (a_d a) ->
-  pending (a_c a) = [] -> buf (a_c a) = [] -> 12 * a_latest a <= bufoff (a_c a) ->
-  bufoff (a_c a) = len (durable (a_c a)) -> len (durable (a_c a)) mod 12 = 0 ->
+  wf (a_d a) -> CL (a_c a) -> a_latest a + a_cnt a = K -> 32 * K <= f_offset (a_d a) ->
+  12 * a_latest a <= bufoff (a_c a) ->
   exists a', aht_sync a = Ok a' /\ a_size a' = a_size a /\ a_latest a' = K /\ a_cnt a' = 0 /\
-    wf (a_d a') /\ wf (a_c a') /\ f_offset (a_d a') = f_offset (a_d a) /\
-    pending (a_c a') = [] /\ buf (a_c a') = [] /\ 12 * K <= bufoff (a_c a') /\
-    bufoff (a_c a') = len (durable (a_c a')) /\ len (durable (a_c a')) mod 12 = 0.
+    wf (a_d a') /\ CL (a_c a') /\ f_offset (a_d a') = f_offset (a_d a) /\ 12 * K <= bufoff (a_c a').
 Proof.
-  intros Wd Wc HK H32 Hp Hb H12 Hbl Hm. unfold aht_sync.
+  intros Wd HC HK H32 H12. unfold aht_sync.
   destruct (N.eqb_spec (a_cnt a) 0) as [E0|N0].
-  - exists a. repeat split; auto; try lia.
+  - exists a. split; [reflexivity|]. split; [reflexivity|]. split; [lia|]. split; [lia|].
+    split; [exact Wd|]. split; [exact HC|]. split; [reflexivity|lia].
   - destruct (f_setoffset_some false (a_c a) (12 * a_latest a)) as (c1 & Es).
     { unfold f_offset. lia. }
     unfold f_setoffset. rewrite Es.
     set (ents := aht_entries (a_latest a) (N.to_nat (a_cnt a))).
     assert (Le: len ents = 12 * a_cnt a) by (unfold ents; rewrite len_aht_entries; lia).
-    destruct (clog_rewrite (a_c a) (12 * a_latest a) ents c1 Wc Hp Hb Hbl H12 Es) as (C1 & C2 & C3 & C4 & C5).
+    destruct (clog_rewrite (a_c a) (12 * a_latest a) ents c1 HC H12 ltac:(lia) ltac:(lia) Es) as (C1 & C2 & C3 & C4 & C5).
     destruct (f_sync_spec (a_d a) Wd) as (E1 & E2 & E3 & E4).
     eexists. split; [reflexivity|]. cbn [a_size a_latest a_cnt a_d a_c].
-    assert (Ld: len (take (12 * a_latest a) (durable (a_c a)) ++ ents) = 12 * K).
-    { rewrite len_app, len_take, Le. lia. }
-    repeat split; auto; try lia.
+    repeat split; auto; try lia; try (apply C1).
     + apply wf_sync; auto.
     + unfold f_offset at 1. rewrite E3, E4, len_nil. lia.
-    + rewrite C4, C5, Ld, Le. lia.
-    + rewrite C5, Ld. rewrite N.mul_comm. apply N.mod_mul. lia.
 Qed.
 
 Lemma aht_append_ok thld a leaf :
   AInv thld a -> len leaf = 32 ->
   exists a', aht_append thld a leaf = Ok a' /\ AInv thld a' /\ a_size a' = a_size a + 1.
 Proof.
-  intros (Wd & Wc & Hs & Hc & H32 & Hp & Hb & H12 & Hbl & Hm) Hl. unfold aht_append.
+  intros (Wd & HC & Hs & Hc & H32 & H12) Hl. unfold aht_append.
   destruct (f_setoffset_some false (a_d a) (32 * a_size a) H32) as (d1 & Es).
   unfold f_setoffset. rewrite Es.
   destruct (f_setoffset_spec _ _ _ _ Wd Es) as (S1 & S2 & S3 & S4 & _).
@@ -103,16 +171,16 @@ Proof.
   cbn [a_cnt a_d a_c a_size a_latest].
   destruct (N.eqb_spec (a_cnt a + 1) thld) as [Et|Nt].
   - destruct (aht_sync_ok (mkAht d2 (a_c a) (a_size a) (a_latest a) (a_cnt a + 1)) (a_size a + 1))
-      as (a' & Ea & R1 & R2 & R3 & R4 & R5 & R6 & R7 & R8 & R9 & R10 & R11);
+      as (a' & Ea & R1 & R2 & R3 & R4 & R5 & R6 & R7);
       cbn [a_cnt a_d a_c a_size a_latest]; auto; try lia.
     rewrite Ea. cbn [bind]. eexists. split; [reflexivity|].
     cbn [a_cnt a_d a_c a_size a_latest] in R1, R6.
     split.
     * unfold AInv. cbn [a_cnt a_d a_c a_size a_latest]. rewrite R1, R2, R3.
-      repeat split; auto; try lia.
+      repeat split; auto; try lia; apply R5.
     * cbn [a_size]. rewrite R1. reflexivity.
   - cbn [bind]. eexists. split; [reflexivity|]. split.
-    + unfold AInv. cbn [a_cnt a_d a_c a_size a_latest]. repeat split; auto; try lia.
+    + unfold AInv. cbn [a_cnt a_d a_c a_size a_latest]. repeat split; auto; try lia; apply HC.
     + reflexivity.
 Qed.
 
@@ -121,42 +189,54 @@ Lemma aht_sync_AInv thld a :
   exists a', aht_sync a = Ok a' /\ AInv thld a' /\ a_size a' = a_size a /\
              a_latest a' = a_size a /\ a_cnt a' = 0 /\ f_offset (a_d a') = f_offset (a_d a).
 Proof.
-  intros (Wd & Wc & Hs & Hc & H32 & Hp & Hb & H12 & Hbl & Hm).
-  destruct (aht_sync_ok a (a_size a)) as (a' & Ea & R1 & R2 & R3 & R4 & R5 & R6 & R7 & R8 & R9 & R10 & R11); auto.
+  intros (Wd & HC & Hs & Hc & H32 & H12).
+  destruct (aht_sync_ok a (a_size a)) as (a' & Ea & R1 & R2 & R3 & R4 & R5 & R6 & R7); auto.
   exists a'. split; [exact Ea|]. split; [|repeat split; auto].
-  unfold AInv. rewrite R1, R2, R3, R6. repeat split; auto; lia.
+  unfold AInv. rewrite R1, R2, R3, R6. repeat split; auto; try lia; apply R5.
 Qed.
 
 Lemma f_append_nil f : f_append f [] = f.
 Proof. unfold f_append. rewrite app_nil_r. destruct f; reflexivity. Qed.
 
-(* ResetSize to a smaller size: with dur = true (proposed repair) the tree's commit log is rewound
-   and fsynced, otherwise only the sizes in memory change *)
-Lemma aht_reset_ok dur thld a n :
+(* ResetSize to a smaller size *)
+Lemma aht_reset_ok m thld a n :
   AInv thld a -> n < a_size a -> 0 < thld ->
-  exists a1 a', aht_sync a = Ok a1 /\ aht_reset dur a n = Ok a' /\ AInv thld a' /\
+  exists a1 a', aht_sync a = Ok a1 /\ aht_reset m a n = Ok a' /\ AInv thld a' /\
     a_size a' = n /\ a_latest a' = n /\ a_cnt a' = 0 /\ a_d a' = a_d a1 /\
-    (dur = false -> a_c a' = a_c a1) /\
-    (dur = true -> durable (a_c a') = take (12 * n) (durable (a_c a1)) /\ len (durable (a_c a')) = 12 * n).
+    durable (a_c a') = take (len (durable (a_c a'))) (durable (a_c a1)) /\ 12 * n <= len (durable (a_c a')) /\
+    (m = RSync -> pending (a_c a') = [] /\ len (durable (a_c a')) = 12 * n).
 Proof.
   intros IA Hn Ht. unfold aht_reset.
   destruct (N.ltb_spec (a_size a) n); [lia|].
   destruct (N.eqb_spec (a_size a) n) as [E|N]; [lia|].
   destruct (aht_sync_AInv _ _ IA) as (a1 & Ea & IA1 & Sz & La & Cn & _).
   rewrite Ea. cbn [bind]. exists a1.
-  destruct IA1 as (Wd & Wc & Hs & Hc & H32 & Hp & Hb & H12 & Hbl & Hm).
-  destruct dur.
-  - destruct (f_setoffset_some false (a_c a1) (12 * n)) as (c1 & Es); [unfold f_offset; lia|].
-    unfold f_setoffset. rewrite Es.
-    destruct (clog_rewrite (a_c a1) (12 * n) [] c1 Wc Hp Hb Hbl ltac:(lia) Es) as (C1 & C2 & C3 & C4 & C5).
-    rewrite f_append_nil in C1, C2, C3, C4, C5. rewrite app_nil_r in C5. rewrite len_nil in C4.
-    assert (Ld: len (durable (f_sync c1)) = 12 * n) by (rewrite C5, len_take; lia).
+  destruct IA1 as (Wd & HC & Hs & Hc & H32 & H12).
+  pose proof HC as (_ & _ & _ & Hl & _).
+  destruct m.
+  - (* in memory only *)
     eexists. split; [reflexivity|]. split; [reflexivity|]. cbn [a_size a_latest a_cnt a_d a_c].
-    split; [|repeat split; auto; discriminate].
-    unfold AInv. cbn [a_size a_latest a_cnt a_d a_c]. repeat split; auto; try lia.
-  - eexists. split; [reflexivity|]. split; [reflexivity|]. cbn [a_size a_latest a_cnt a_d a_c].
-    split; [|repeat split; auto; discriminate].
-    unfold AInv. cbn [a_size a_latest a_cnt a_d a_c]. repeat split; auto; lia.
+    split; [|repeat split; auto; try discriminate; try lia; symmetry; apply take_all].
+    unfold AInv. cbn [a_size a_latest a_cnt a_d a_c]. repeat split; auto; try lia; apply HC.
+  - (* cut, not fsynced *)
+    destruct (f_setoffset_some false (a_c a1) (12 * n)) as (c1 & Es).
+    { destruct HC as (Hb & _). unfold f_offset. rewrite Hb, len_nil. lia. }
+    unfold f_setoffset. rewrite Es.
+    destruct (CL_setoffset (a_c a1) (12 * n) c1 HC ltac:(lia) ltac:(lia) Es) as (HC1 & B1 & D1 & _).
+    eexists. split; [reflexivity|]. split; [reflexivity|]. cbn [a_size a_latest a_cnt a_d a_c].
+    split; [|rewrite D1; repeat split; auto; try discriminate; try lia; symmetry; apply take_all].
+    unfold AInv. cbn [a_size a_latest a_cnt a_d a_c]. repeat split; auto; try lia; apply HC1.
+  - (* cut and fsynced *)
+    destruct (f_setoffset_some false (a_c a1) (12 * n)) as (c1 & Es).
+    { destruct HC as (Hb & _). unfold f_offset. rewrite Hb, len_nil. lia. }
+    unfold f_setoffset. rewrite Es.
+    destruct (clog_rewrite (a_c a1) (12 * n) [] c1 HC ltac:(lia) ltac:(lia) ltac:(rewrite len_nil; reflexivity) Es)
+      as (C1 & C2 & C3 & C4 & C5).
+    rewrite f_append_nil in C1, C2, C3, C4, C5. rewrite app_nil_r in C4. rewrite len_nil in C3, C5.
+    eexists. split; [reflexivity|]. split; [reflexivity|]. cbn [a_size a_latest a_cnt a_d a_c].
+    split; [|rewrite C5; repeat split; auto; try lia].
+    + unfold AInv. cbn [a_size a_latest a_cnt a_d a_c]. repeat split; auto; try lia; apply C1.
+    + rewrite C4. f_equal. lia.
 Qed.
 
 Lemma aht_reset_same dur a n : a_size a = n -> aht_reset dur a n = Ok a.
@@ -191,8 +271,9 @@ Proof.
   intros E. apply bind_ok in E as (a1 & _ & E).
   assert (Q: forall x y, @Ok aht x = Ok y -> x = y) by (intros ? ? Q; congruence).
   destruct dur.
-  - destruct (f_setoffset (a_c a1) (12 * n)); [|discriminate]. apply Q in E. subst a'. reflexivity.
   - apply Q in E. subst a'. reflexivity.
+  - destruct (f_setoffset (a_c a1) (12 * n)); [|discriminate]. apply Q in E. subst a'. reflexivity.
+  - destruct (f_setoffset (a_c a1) (12 * n)); [|discriminate]. apply Q in E. subst a'. reflexivity.
 Qed.
 
 Lemma aht_append_size thld a leaf a' : aht_append thld a leaf = Ok a' -> a_size a' = a_size a + 1.
@@ -208,16 +289,15 @@ Qed.
 
 (* what sync() leaves in the two files *)
 Lemma aht_sync_content a a' :
-  wf (a_d a) -> wf (a_c a) -> pending (a_c a) = [] -> buf (a_c a) = [] -> 12 * a_latest a <= bufoff (a_c a) ->
-  bufoff (a_c a) = len (durable (a_c a)) ->
+  wf (a_d a) -> CL (a_c a) -> 12 * a_latest a <= bufoff (a_c a) ->
   aht_sync a = Ok a' ->
   (a_cnt a = 0 /\ a' = a) \/
   (a_cnt a <> 0 /\ durable (a_d a') = lview (a_d a) /\ pending (a_d a') = [] /\ buf (a_d a') = [] /\
    bufoff (a_d a') = f_offset (a_d a) /\ lview (a_d a') = lview (a_d a) /\
-   len (durable (a_c a')) = 12 * (a_latest a + a_cnt a) /\
+   len (durable (a_c a')) = 12 * (a_latest a + a_cnt a) /\ pending (a_c a') = [] /\
    a_latest a' = a_latest a + a_cnt a /\ a_size a' = a_size a /\ a_cnt a' = 0).
 Proof.
-  intros Wd Wc Hp Hb H12 Hbl. unfold aht_sync.
+  intros Wd HC H12. unfold aht_sync.
   destruct (N.eqb_spec (a_cnt a) 0) as [E0|N0].
   - intros E. left. split; [exact E0|congruence].
   - destruct (f_setoffset (a_c a) (12 * a_latest a)) as [c1|] eqn:Es; [|discriminate].
@@ -226,9 +306,9 @@ Proof.
     apply Q in E. subst a'. cbn [a_d a_c a_size a_latest a_cnt].
     set (ents := aht_entries (a_latest a) (N.to_nat (a_cnt a))) in *.
     assert (Le: len ents = 12 * a_cnt a) by (unfold ents; rewrite len_aht_entries; lia).
-    destruct (clog_rewrite (a_c a) (12 * a_latest a) ents c1 Wc Hp Hb Hbl H12 Es) as (C1 & C2 & C3 & C4 & C5).
+    destruct (clog_rewrite (a_c a) (12 * a_latest a) ents c1 HC H12 ltac:(lia) ltac:(lia) Es) as (C1 & C2 & C3 & C4 & C5).
     destruct (f_sync_spec (a_d a) Wd) as (E1 & E2 & E3 & E4).
     split; [exact E1|]. split; [exact E2|]. split; [exact E3|]. split; [exact E4|].
-    split; [apply lview_sync; auto|]. split; [|repeat split; reflexivity].
-    rewrite C5, len_app, len_take, Le. lia.
+    split; [apply lview_sync; auto|]. split; [rewrite C5, Le; lia|]. split; [exact C2|].
+    repeat split; reflexivity.
 Qed.
